@@ -11,7 +11,11 @@ Implementation functions driven (real code from $VERIF_REPO/src):
   get_image_coordinate_system, _get_spatial_information, iter_tiled_full_frame_data (-> compute_tile_positions_per_frame),
   <Transformer>.for_image, PixelToPixel/ImageToImage.for_images on synthetic datasets (model-compared),
   volume.VolumeGeometry.from_attributes / from_components and accessors (incl. pixel_spacing,
-  spacing_between_slices, voxel_volume, physical_extent/volume, direction, spacing/unit vectors, inverse_affine).
+  spacing_between_slices, voxel_volume, physical_extent/volume, direction, spacing/unit vectors, inverse_affine),
+  volume.Volume.from_components / from_attributes and VolumeGeometry.with_array on arrays WITH channel dimensions
+  (spatial_shape, channel_shape, center_position / center_indices, get_geometry, map_reference_to_indices with
+  check_bounds), PixelToReference / PixelToPixel (constructor and for_images, rounded and not) on index arrays of
+  every integer dtype and several memory layouts.
 Model: coq/theories/C10_Model.v; theorems: C10_Props.v.
 """
 import itertools
@@ -47,16 +51,25 @@ MODELLED = ('spatial.py: get_normal_vector, create_rotation_matrix, create_affin
             'compute_tile_positions_per_frame (the frame they yield), <Transformer>.for_image and '
             'PixelToPixel/ImageToImage.for_images on the record of the attributes they read (kinds ds_info, ds_pair, '
             'ds_tile); the older for_image kind additionally checks them against the explicit-attribute '
-            'transformers by the oracle only.')
+            'transformers by the oracle only. Index dtype of the array handed to PixelToReference/PixelToPixel '
+            '__call__ (kinds p2r_dtype, p2p_dtype, ds_pair_dtype: run_*_dt; the memory layout of the array is outside '
+            'the model), Volume.from_components / from_attributes / VolumeGeometry.with_array on arrays with channel '
+            'dimensions (kinds vol_*: vol_make, vol_from_components, vol_from_attributes, geom_with_array, '
+            'map_reference_to_indices(check_bounds=True)); identities_dtype is oracle-only.')
 STRATA = ['rotation', 'affine_attr', 'inv_affine', 'p2r', 'i2r', 'r2p', 'r2i', 'p2p', 'i2i', 'coplanar',
           'map_pixel', 'map_coord', 'rot_po', 'closest', 'po_roundtrip', 'affine_comp', 'tam',
           'to_convention', 'geom_attr', 'geom_comp', 'geom_maps', 'geom_more', 'identities', 'for_image',
-          'ds_info', 'ds_pair', 'ds_tile', 'malformed']
+          'ds_info', 'ds_pair', 'ds_tile', 'malformed',
+          'p2r_dtype', 'p2p_dtype', 'ds_pair_dtype', 'identities_dtype', 'vol_comp', 'vol_attr', 'vol_with_array']
 RULE = ('orientations: 24 signed axis pairs, Pythagorean rotations about an axis, dense rational rotations from '
         'integer quaternions, left- and right-handed column choice; positions dyadic; spacings dyadic and '
         'non-dyadic rationals, scalar and per-axis; all 8 pixel index conventions x slices_first x handedness; all 48 '
         'patient orientations (and all 48x48 convention pairs in thorough); integer, half-integer and sub-pixel '
-        'points; coplanar / shifted / tilted image pairs; malformed stream violating each guard once. '
+        'points; coplanar / shifted / tilted image pairs; malformed stream violating each guard once; index arrays '
+        'of int8..int64 / uint8..uint64 (values at both ends of the dtype range, results negative or beyond the '
+        'dtype), float16/32/64 and bool arrays (refused), C / Fortran / strided / transposed / reversed / read-only '
+        'layouts; volumes with 0-2 channel dimensions (RGB, DICOM attribute, custom descriptors), spatial sizes '
+        '1..12 differing from the channel sizes, anchored by position or by centre, array dtype and layout varied. '
         'non-trivial = oblique or non-unit-spacing geometry, or a refused input; distinct by case hash')
 NOT_EXECUTED = []
 EXHAUSTIVE = {'quick': False, 'thorough': False}
@@ -339,6 +352,9 @@ def gen_cases(rng, tier):
         add({'kind': 'geom_more', 'g': g, 'shape': [rng.randint(1, 9) for _ in range(3)]})
     # ---- malformed stream --------------------------------------------------------------------
     cases += _malformed(rng, 70 * N)
+    # ---- index arrays of every dtype / layout; volumes with channel dimensions (appended: earlier draws unchanged)
+    cases += _dtype_cases(rng, N)
+    cases += _vol_cases(rng, N)
     return cases
 
 
@@ -767,6 +783,218 @@ def _malformed(rng, n):
 
 
 # ---------------------------------------------------------------------------
+# index arrays: dtype and memory layout of what is handed to __call__
+# ---------------------------------------------------------------------------
+INDEX_DTYPES = {'int8': ('KSigned', 8), 'int16': ('KSigned', 16), 'int32': ('KSigned', 32), 'int64': ('KSigned', 64),
+                'uint8': ('KUnsigned', 8), 'uint16': ('KUnsigned', 16), 'uint32': ('KUnsigned', 32),
+                'uint64': ('KUnsigned', 64)}
+OTHER_DTYPES = {'float16': ('KFloat', 16), 'float32': ('KFloat', 32), 'float64': ('KFloat', 64), 'bool': ('KBool', 8)}
+ALL_DTYPES = dict(INDEX_DTYPES, **OTHER_DTYPES)
+LAYOUTS = ['C', 'F', 'strided', 'T', 'reversed', 'readonly']
+BIG = 2 ** 33          # float64 keeps 1e-9 relative / exact rounding far beyond this; beyond int32 / uint32 on purpose
+
+
+def _dt_range(dt):
+    kind, bits = ALL_DTYPES[dt]
+    if kind == 'KSigned':
+        return -2 ** (bits - 1), 2 ** (bits - 1) - 1
+    if kind == 'KUnsigned':
+        return 0, 2 ** bits - 1
+    return 0, 1
+
+
+def _dt_value(rng, dt, cap=BIG):
+    kind, _ = ALL_DTYPES[dt]
+    if kind == 'KFloat':
+        return str(F(rng.randint(-20, 80), rng.choice([1, 1, 2, 4])))
+    if kind == 'KBool':
+        return rng.randint(0, 1)
+    lo, hi = _dt_range(dt)
+    lo, hi = max(lo, -cap), min(hi, cap)
+    m = rng.random()
+    if m < 0.4:
+        return rng.randint(max(lo, -3), min(hi, 40))
+    if m < 0.75:
+        return rng.choice([lo, lo + 1, hi - 1, hi, hi - rng.randint(0, 9), lo + rng.randint(0, 9)])
+    return rng.randint(lo, hi)
+
+
+def _dt_pts(rng, dt, n, cap=BIG):
+    return [[_dt_value(rng, dt, cap), _dt_value(rng, dt, cap)] for _ in range(n)]
+
+
+def _pick_dtype(rng):
+    # unsigned and narrow dtypes are where a result can fall outside the dtype of the input
+    return rng.choice(['uint8', 'uint8', 'uint16', 'uint16', 'uint32', 'uint64', 'int8', 'int8', 'int16', 'int32',
+                       'int64'])
+
+
+def _pair_sub(rng):
+    """coplanar pair on which rounding is robust: integer relations, or a shift by a non-integer number of pixels
+    whose fractional part stays 1/8 away from the half"""
+    while True:
+        g, g2, rel = _pair(rng, coplanar_only=True)
+        if rel in INTEGER_RELS:
+            break
+    if rel in ('same', 'shift') and rng.random() < 0.4:
+        fr = lambda: rng.randint(-9, 9) + F(rng.choice([-3, -2, -1, 1, 2, 3]), 8)      # noqa: E731
+        g2 = dict(g2, pos=_S(_ref_of(g, fr(), fr())))
+        rel = 'subshift'
+    return g, g2, rel
+
+
+def _dtype_cases(rng, N):
+    out = []
+    for _ in range(24 * N):                      # PixelToReference on every index dtype / layout
+        g = _geom(rng)
+        dt = _pick_dtype(rng)
+        out.append({'kind': 'p2r_dtype', 'g': g, 'w': 2, 'dt': dt, 'layout': rng.choice(LAYOUTS),
+                    'pts': _dt_pts(rng, dt, rng.randint(0, 4))})
+    for _ in range(54 * N):                      # PixelToPixel, rounded (default) and not
+        if rng.random() < 0.8:
+            g, g2, rel = _pair_sub(rng)
+            rnd = rng.random() < 0.8
+        else:
+            g, g2, rel = _pair(rng)
+            rnd = rel in INTEGER_RELS and rng.random() < 0.5
+        dt = _pick_dtype(rng)
+        out.append({'kind': 'p2p_dtype', 'g': g, 'g_to': g2, 'rel': rel, 'w': 2, 'round': rnd, 'dt': dt,
+                    'layout': rng.choice(LAYOUTS), 'pts': _dt_pts(rng, dt, rng.randint(1, 4))})
+    for dt in OTHER_DTYPES:                      # float / bool arrays: TypeError from the call
+        for kind in ('p2r_dtype', 'p2p_dtype'):
+            g, g2, rel = _pair_sub(rng)
+            out.append({'kind': kind, 'g': g, 'g_to': g2, 'rel': rel, 'w': 2, 'round': rng.random() < 0.5, 'dt': dt,
+                        'layout': rng.choice(LAYOUTS), 'pts': _dt_pts(rng, dt, rng.randint(1, 3))})
+    for _ in range(16 * N):                      # for_images (round_output default and explicit) on every index dtype
+        g = _geom(rng)
+        g['pos'][2] = '0'
+        d = _ds_wsi(rng, g, rng.random() < 0.6, rng.choice([None, None, str(_dy(rng, -40, 40))]))
+        d['focal'] = 1
+        nfr = _ds_nframes(d)
+        rel = rng.choice(['frame_tpm', 'frame_tpm', 'tpm_frame', 'tpm_frame', 'frame_frame', 'other_for'])
+        b = d
+        fa, fb, ta, tb = rng.randint(1, nfr), None, False, True
+        if rel == 'tpm_frame':
+            fa, fb, ta, tb = None, rng.randint(1, nfr), True, False
+        elif rel == 'frame_frame':
+            fb, tb = rng.randint(1, nfr), False
+        elif rel == 'other_for':
+            b = dict(d, **{'for': '1.2.4'})
+        dt = _pick_dtype(rng)
+        out.append({'kind': 'ds_pair_dtype', 'a': d, 'b': b, 'fa': fa, 'fb': fb, 'ta': ta, 'tb': tb, 'rel': rel, 'g': g,
+                    'round': rng.choice([True, True, True, False]), 'dt': dt, 'layout': rng.choice(LAYOUTS),
+                    'pts': _dt_pts(rng, dt, rng.randint(1, 3), cap=300)})
+    for _ in range(12 * N):                      # the same index VALUES in every dtype / layout (oracle only)
+        g, g2, rel = _pair_sub(rng)
+        out.append({'kind': 'identities_dtype', 'g': g, 'g_to': g2, 'rel': rel,
+                    'pts': [[rng.choice([0, 1, 127, rng.randint(0, 127)]), rng.randint(0, 127)]
+                            for _ in range(rng.randint(1, 4))],
+                    'layouts': rng.sample(LAYOUTS, 2)})
+    return out
+
+
+# ---------------------------------------------------------------------------
+# volumes carrying an array with channel dimensions
+# ---------------------------------------------------------------------------
+CHANNEL_POOL = ['OpticalPathIdentifier', 'SegmentNumber', 'DiffusionBValue', 'custom_int', 'custom_str']
+ARRAY_DTYPES = ['uint8', 'int16', 'float32', 'float64', 'bool']
+
+
+def _vol_channels(rng):
+    pool = list(CHANNEL_POOL)
+    rng.shuffle(pool)
+    chan = []
+    for _ in range(rng.choice([0, 1, 1, 1, 2, 2])):
+        n = rng.choice([1, 2, 3, 3, 4, 5])
+        key = 'rgb' if (n == 3 and rng.random() < 0.5 and not any(k == 'rgb' for k, _ in chan)) else pool.pop()
+        chan.append([key, n])
+    return chan
+
+
+def _vol_probes(spatial, rng):
+    n = spatial
+    probes = [_S([F(x - 1, 2) for x in n]), _S([x - 1 for x in n]), ['0', '0', '0']]
+    k = rng.randrange(3)
+    bad = [rng.randint(0, x - 1) for x in n]
+    bad[k] = rng.choice([n[k], n[k] + 2, -1, -3])
+    probes.append(_S(bad))
+    return probes
+
+
+def _vol_finish(rng, c):
+    spatial = [rng.randint(1, 12) for _ in range(3)]
+    c['chan'] = _vol_channels(rng)
+    c['shape'] = spatial
+    c['ashape'] = spatial + [n for _, n in c['chan']]
+    c['adt'] = rng.choice(ARRAY_DTYPES)
+    c['alayout'] = rng.choice(['C', 'F', 'moveaxis'])
+    c['to'] = rng.choice(ALL48)
+    c['probes'] = _vol_probes(spatial, rng)
+    return c
+
+
+def _vol_comp_case(rng, kind):
+    c = _comp_case(rng, kind)
+    if c['center'] is None and rng.random() < 0.4:       # anchoring by the centre is what involves the shape
+        c['position'], c['center'] = None, c['position']
+    if c['po'] is None:
+        c['patient'] = rng.random() < 0.6
+    return _vol_finish(rng, c)
+
+
+def _vol_cases(rng, N):
+    out = []
+    for _ in range(40 * N):
+        out.append(_vol_comp_case(rng, 'vol_comp'))
+    for _ in range(14 * N):
+        out.append(_vol_finish(rng, {'kind': 'vol_attr', 'g': _geom(rng)}))
+    for _ in range(14 * N):
+        out.append(_vol_comp_case(rng, 'vol_with_array'))
+    for _ in range(18 * N):                      # every guard once
+        kind = rng.choice(['vol_comp', 'vol_comp', 'vol_attr', 'vol_with_array'])
+        c = _vol_comp_case(rng, kind) if kind != 'vol_attr' else _vol_finish(rng, {'kind': kind, 'g': _geom(rng)})
+        bad = rng.choice(['ndim2', 'ndim1', 'chan_missing', 'chan_extra', 'chan_len', 'chan_first'] +
+                         (['po_slide'] if kind != 'vol_attr' else []) +
+                         (['wa_shape', 'wa_perm'] if kind == 'vol_with_array' else []))
+        c['bad'] = bad
+        if bad == 'ndim2':
+            c['ashape'], c['chan'] = c['ashape'][:2], []
+        elif bad == 'ndim1':
+            c['ashape'], c['chan'] = c['ashape'][:1], []
+        elif bad == 'chan_missing':
+            if not c['chan']:
+                c['ashape'] = c['ashape'] + [2]
+            else:
+                c['chan'] = c['chan'][:-1]
+        elif bad == 'chan_extra':
+            c['chan'] = c['chan'] + [['AcquisitionNumber', 2]]
+        elif bad == 'chan_len':
+            if not c['chan']:
+                c['chan'], c['ashape'] = [['SegmentNumber', 2]], c['ashape'] + [2]
+            i = rng.randrange(len(c['chan']))
+            c['chan'][i] = [c['chan'][i][0] if c['chan'][i][0] != 'rgb' else 'SegmentNumber',
+                            c['chan'][i][1] + rng.choice([1, 2])]
+        elif bad == 'chan_first':                 # channel dimension put first: sizes no longer match the values
+            n = rng.choice([x for x in (2, 3, 4, 5, 13) if x != c['ashape'][2]])
+            c['chan'] = [['SegmentNumber', n]]
+            c['ashape'] = [n] + c['shape']
+        elif bad == 'po_slide':
+            c['po'], c['direction'], c['patient'] = rng.choice(ALL48), None, False
+        elif bad == 'wa_shape':
+            k = rng.randrange(3)
+            c['ashape'] = list(c['ashape'])
+            c['ashape'][k] += rng.choice([1, 2])
+        elif bad == 'wa_perm':                    # array with the spatial axes in another order
+            sp = list(c['shape'])
+            if len(set(sp)) == 1:
+                sp[0] += 1
+                c['shape'] = list(sp)
+            c['ashape'] = [sp[1], sp[2], sp[0]] + c['ashape'][3:]
+        out.append(c)
+    return out
+
+
+# ---------------------------------------------------------------------------
 # implementation runner
 # ---------------------------------------------------------------------------
 def _f(x):
@@ -948,6 +1176,20 @@ def run_impl(c):
         return _run_ds_tile(c)
     if k == 'geom_more':
         return _run_geom_more(c)
+    if k in ('p2r_dtype', 'p2p_dtype'):
+        pos, ori, sp = map(_pyarg, _args(c))
+        arr = lambda: _np_arr(_dt_rows(c['pts'], c['dt']), 2, c['dt'], c['layout'])      # noqa: E731
+        if k == 'p2r_dtype':
+            return _obs_call(lambda: S.PixelToReferenceTransformer(pos, ori, sp), lambda t: t(arr()))
+        to = list(map(_pyarg, _args(c, '_to')))
+        return _obs_call(lambda: S.PixelToPixelTransformer(pos, ori, sp, *to, round_output=c['round']),
+                         lambda t: t(arr()))
+    if k == 'ds_pair_dtype':
+        return _run_ds_pair_dtype(c)
+    if k == 'identities_dtype':
+        return _run_identities_dtype(c)
+    if k in ('vol_comp', 'vol_attr', 'vol_with_array'):
+        return _run_vol(c)
     raise ValueError(k)
 
 
@@ -1233,6 +1475,142 @@ def _run_geom_more(c):
     return catch(f)
 
 
+def _dt_rows(pts, dt):
+    """python values an array of dtype dt is built from"""
+    if ALL_DTYPES[dt][0] == 'KFloat':
+        return [[_f(x) for x in p] for p in pts]
+    return [[int(x) for x in p] for p in pts]
+
+
+def _np_arr(rows, w, dt, layout):
+    """(n, w) array of the given dtype holding rows, in the given memory layout"""
+    import numpy as np
+    a = np.array(rows, dtype=dt).reshape(len(rows), w)
+    if layout == 'F':
+        a = np.asfortranarray(a)
+    elif layout == 'strided':
+        b = np.zeros((2 * len(rows) + 1, 2 * w + 1), dtype=dt)
+        b[1::2, 1::2] = a
+        a = b[1::2, 1::2]
+    elif layout == 'T':
+        a = np.ascontiguousarray(a.T).T
+    elif layout == 'reversed':
+        a = np.ascontiguousarray(a[::-1, ::-1])[::-1, ::-1]
+    elif layout == 'readonly':
+        a = a.copy()
+        a.setflags(write=False)
+    assert a.shape == (len(rows), w) and a.dtype == np.dtype(dt)
+    return a
+
+
+def _run_ds_pair_dtype(c):
+    from highdicom import spatial as S
+    a = _ds_build(c['a'])
+    b = a if c['b'] is c['a'] or c['b'] == c['a'] else _ds_build(c['b'])
+    kw = {'frame_number_from': c['fa'], 'frame_number_to': c['fb'],
+          'for_total_pixel_matrix_from': c['ta'], 'for_total_pixel_matrix_to': c['tb']}
+    if not c['round']:
+        kw['round_output'] = False            # True is the default: left to the default on purpose
+
+    def p2p():
+        t = S.PixelToPixelTransformer.for_images(a, b, **kw)
+        return [t.affine.tolist(), t(_np_arr(_dt_rows(c['pts'], c['dt']), 2, c['dt'], c['layout'])).tolist()]
+    return _catch2(p2p)
+
+
+def _run_identities_dtype(c):
+    """the same index values handed in as every integer dtype and in two layouts; float transformers in
+    every layout"""
+    import numpy as np
+    from highdicom import spatial as S
+    g, g2 = c['g'], c['g_to']
+    a = (_fl(g['pos']), _fl(g['ori']), _fl(g['sp']))
+    b = (_fl(g2['pos']), _fl(g2['ori']), _fl(g2['sp']))
+    base = np.array(c['pts'], dtype=np.int64).reshape(len(c['pts']), 2)
+    p2p, p2pf = S.PixelToPixelTransformer(*a, *b), S.PixelToPixelTransformer(*a, *b, round_output=False)
+    p2r, r2p_to = S.PixelToReferenceTransformer(*a), S.ReferenceToPixelTransformer(*b)
+    ref = p2r(base)
+    out = {'via': r2p_to(ref)[:, :2].tolist(), 'ref': ref.tolist(), 'float': p2pf(base).tolist(), 'by_dtype': {}}
+    for dt in INDEX_DTYPES:
+        for lay in c['layouts']:
+            arr = _np_arr(c['pts'], 2, dt, lay)
+            before = arr.copy()
+            r = p2p(arr)
+            out['by_dtype'][f'{dt}/{lay}'] = [r.tolist(), r.dtype.kind, p2pf(arr).tolist(), p2r(arr).tolist(),
+                                               bool((arr == before).all() and arr.dtype == before.dtype)]
+    i2r, r2i = S.ImageToReferenceTransformer(*a), S.ReferenceToImageTransformer(*a)
+    r2p, i2i = S.ReferenceToPixelTransformer(*a), S.ImageToImageTransformer(*a, *b)
+    im = (base + 0.5).tolist()
+    out['float_base'] = [i2r(np.array(im)).tolist(), r2i(ref).tolist(), r2p(ref).tolist(), i2i(np.array(im)).tolist()]
+    out['by_layout'] = {}
+    for lay in LAYOUTS:
+        x2, x3 = _np_arr(im, 2, 'float64', lay), _np_arr(ref.tolist(), 3, 'float64', lay)
+        out['by_layout'][lay] = [i2r(x2).tolist(), r2i(x3).tolist(), r2p(x3).tolist(), i2i(x2).tolist()]
+    return out
+
+
+def _vol_channel_dict(c):
+    from highdicom.volume import ChannelDescriptor, RGB_COLOR_CHANNEL_DESCRIPTOR
+    ch = {}
+    for key, n in c['chan']:
+        if key == 'rgb':
+            ch[RGB_COLOR_CHANNEL_DESCRIPTOR] = ['R', 'G', 'B', 'R', 'G', 'B'][:n]
+        elif key == 'custom_int':
+            ch[ChannelDescriptor('level', is_custom=True, value_type=int)] = list(range(n))
+        elif key == 'custom_str':
+            ch[ChannelDescriptor('stain', is_custom=True, value_type=str)] = [f's{i}' for i in range(n)]
+        elif key == 'OpticalPathIdentifier':
+            ch[key] = [f'p{i}' for i in range(n)]
+        elif key == 'DiffusionBValue':
+            ch[key] = [float(100 * i) for i in range(n)]
+        else:                                   # SegmentNumber, AcquisitionNumber: integer valued attributes
+            ch[key] = list(range(1, n + 1))
+    return ch or None
+
+
+def _vol_array(c):
+    import numpy as np
+    sh = tuple(c['ashape'])
+    if c['alayout'] == 'F':
+        return np.zeros(sh, dtype=c['adt'], order='F')
+    if c['alayout'] == 'moveaxis' and len(sh) > 3:      # stored channel-first, viewed spatial-first
+        return np.moveaxis(np.zeros(sh[3:] + sh[:3], dtype=c['adt']), list(range(len(sh) - 3)),
+                           list(range(3, len(sh))))
+    return np.zeros(sh, dtype=c['adt'])
+
+
+def _run_vol(c):
+    import numpy as np
+    from highdicom.volume import Volume, VolumeGeometry
+    k = c['kind']
+
+    def build():
+        arr = _vol_array(c)
+        assert list(arr.shape) == list(c['ashape'])
+        ch = _vol_channel_dict(c)
+        if k == 'vol_attr':
+            g = c['g']
+            return Volume.from_attributes(
+                array=arr, image_position=_fl(g['pos']), image_orientation=_fl(g['ori']), pixel_spacing=_fl(g['sp']),
+                spacing_between_slices=_f(g['ss']), coordinate_system='PATIENT', channels=ch)
+        cs = 'PATIENT' if c['patient'] else 'SLIDE'
+        if k == 'vol_comp':
+            return Volume.from_components(arr, coordinate_system=cs, channels=ch, **_comp_kwargs(c))
+        G = VolumeGeometry.from_components(c['shape'], coordinate_system=cs, **_comp_kwargs(c))
+        return G.with_array(arr, channels=ch)
+
+    def obs():
+        V = build()
+        G2 = V.get_geometry()
+        probes = []
+        for p in c['probes']:
+            x = V.map_indices_to_reference(np.array([_fl(p)]))
+            probes.append(catch(lambda: V.map_reference_to_indices(x, check_bounds=True).tolist()))
+        return [_geom_obs(V, c['to']), list(V.spatial_shape), list(V.channel_shape), list(V.physical_extent),
+                list(V.center_indices), [G2.affine.tolist(), list(G2.spatial_shape)], probes]
+    return catch(obs)
+
+
 def _run_malformed(c):
     import numpy as np
     from highdicom import spatial as S
@@ -1441,6 +1819,11 @@ def _oz(x):
     return 'None' if x is None else f'(Some {zlit(x)})'
 
 
+def _dt_term(dt):
+    kind, bits = ALL_DTYPES[dt]
+    return f'(DT {kind} {bits})'
+
+
 
 def coq_term(c):
     k = c['kind']
@@ -1456,6 +1839,27 @@ def coq_term(c):
                 f"{_b(c['ta'])} {_b(c['tb'])} {_qll(c['pts'])})")
     if k == 'ds_tile':
         return f"(run_tiled_full_frame {_ds_term(c['ds'])} {zlit(c['frame'])})"
+    if k == 'identities_dtype':
+        return None                      # dtype independence / memory layout on the real transformers: oracle only
+    if k == 'ds_pair_dtype':
+        return (f"(run_for_images_dt {_ds_term(c['a'])} {_ds_term(c['b'])} {_oz(c['fa'])} {_oz(c['fb'])} "
+                f"{_b(c['ta'])} {_b(c['tb'])} {_b(c['round'])} {_dt_term(c['dt'])} {_qll(c['pts'])})")
+    if k in ('p2r_dtype', 'p2p_dtype'):
+        a = ' '.join(_arg(x) for x in _args(c))
+        if k == 'p2r_dtype':
+            return f"(run_p2r_dt {a} 2 {_dt_term(c['dt'])} {_qll(c['pts'])})"
+        b = ' '.join(_arg(x) for x in _args(c, '_to'))
+        return f"(run_p2p_dt {a} {b} {_b(c['round'])} 2 {_dt_term(c['dt'])} {_qll(c['pts'])})"
+    if k in ('vol_comp', 'vol_attr', 'vol_with_array'):
+        sh, ch = zl(c['ashape']), zl([n for _, n in c['chan']])
+        if k == 'vol_attr':
+            a = ' '.join(_arg(x) for x in _args(c))
+            return f"(run_vol_attr {sh} {ch} {a} {qlit(F(c['g']['ss']))} {_s(c['to'])} {_qll(c['probes'])})"
+        comp = (f"{_sarg(c['sp'])} {_oql(c.get('position'))} {_oql(c.get('center'))} {_oql(c.get('direction'))} "
+                f"{_os(c.get('po'))} {_b(c['patient'])} {_s(c['to'])} {_qll(c['probes'])}")
+        if k == 'vol_comp':
+            return f"(run_vol_comp {sh} {ch} {comp})"
+        return f"(run_vol_with_array {zl(c['shape'])} {sh} {ch} {comp})"
     g = c.get('g')
     if k == 'rotation':
         return (f"(VL [run_rotation {ql(g['ori'])} {_s(c['conv'])} {_b(c['sf'])} {_s(c['hand'])} {_arg(c['sp'])} "
@@ -2057,7 +2461,109 @@ def oracle(c, out):
         return _oracle_ds_tile(c, out)
     if k == 'geom_more':
         return _oracle_geom_more(c, out)
+    if k in ('p2r_dtype', 'p2p_dtype'):
+        if c['dt'] in OTHER_DTYPES:
+            if k == 'p2p_dtype' and c['rel'] in ('offplane', 'tilt', 'mirror'):
+                return None if _is_err(out, 'ValueError') else f'non-coplanar pair ({c["rel"]}) accepted'
+            if _is_err(out):
+                return f'constructor refused a valid geometry: {out}'
+            return None if _is_err(out[1], 'TypeError') else f'{c["dt"]} index array not refused with TypeError: {out[1]}'
+        # the index VALUES decide the result, not the dtype / layout they are stored in
+        m = oracle(dict(c, kind=k[:3], isint=True), out)
+        return None if m is None else f'indices of dtype {c["dt"]} (layout {c["layout"]}): {m}'
+    if k == 'ds_pair_dtype':
+        return _oracle_ds_pair_dtype(c, out)
+    if k == 'identities_dtype':
+        return _oracle_identities_dtype(c, out)
+    if k in ('vol_comp', 'vol_attr', 'vol_with_array'):
+        return _oracle_vol(c, out)
     return f'unknown kind {k}'
+
+
+def _oracle_ds_pair_dtype(c, out):
+    rel = c['rel']
+    if rel == 'other_for':
+        return None if _is_err(out, 'ValueError') else f'{rel}: accepted {out}'
+    if _is_err(out):
+        return f'{rel}: coplanar frames refused: {out}'
+    offs = []
+    for d, f, t in ((c['a'], c['fa'], c['ta']), (c['b'], c['fb'], c['tb'])):
+        offs.append((0, 0) if t else _ds_tile_of(d, f)[2:])
+    off = (offs[0][0] - offs[1][0], offs[0][1] - offs[1][1])
+    want = [[int(q[0]) + off[0], int(q[1]) + off[1]] for q in c['pts']]
+    if c['round']:
+        if out[1] != want:
+            return (f'{rel}: rounded P2P.for_images on {c["dt"]} indices {c["pts"]} = {out[1]}, expected p + {off} = '
+                    f'{want}')
+        return None
+    return None if _allclose(out[1], want, 1e3) else f'{rel}: P2P.for_images(p) = {out[1]}, expected p + {off} = {want}'
+
+
+def _oracle_identities_dtype(c, o):
+    S = 1e3
+    want_ref = [_ref_of(c['g'], F(p[0]), F(p[1])) for p in c['pts']]
+    want = [_proj(c['g_to'], x, F(1))[:2] for x in want_ref]
+    want_r = [[round(v) for v in q] for q in want]
+    if o['via'] != want_r:
+        return f'rounded R2P_to(P2R_from(p)) = {o["via"]}, expected {want_r}'
+    if not _allclose(o['float'], want, S):
+        return f'P2P(round_output=False) = {o["float"]}, expected {want}'
+    for key, (r, kind, rf, ref, untouched) in o['by_dtype'].items():
+        if r != o['via']:
+            return (f'P2P on {key} indices {c["pts"]} = {r}, but through the frame of reference (and for int64 '
+                    f'indices) {o["via"]}')
+        if kind != 'i':
+            return f'P2P on {key} indices: rounded output has dtype kind {kind!r}, cannot hold negative indices'
+        if not _allclose(rf, want, S):
+            return f'P2P(round_output=False) on {key} indices = {rf}, expected {want}'
+        if not _allclose(ref, want_ref, S):
+            return f'P2R on {key} indices = {ref}, expected {want_ref}'
+        if not untouched:
+            return f'P2P/P2R modified the caller\'s {key} index array'
+    for lay, res in o['by_layout'].items():
+        for name, got, base in zip(('I2R', 'R2I', 'R2P', 'I2I'), res, o['float_base']):
+            if got != base:
+                return f'{name} on a {lay} array = {got}, on a C-contiguous array = {base}'
+    return None
+
+
+def _oracle_vol(c, out):
+    k = c['kind']
+    bad = c.get('bad')
+    if bad is not None:
+        return None if _is_err(out, 'ValueError') else f'{bad}: expected ValueError, got {out}'
+    if _is_err(out):
+        return f'valid volume refused: {out}'
+    geo, sshape, cshape, extent, cidx, (gaff, gshape), probes = out
+    n = list(c['ashape'][:3])
+    if k == 'vol_attr':
+        pos, rv, cv, nrm, sr, sc, ss = _frame(c['g'])
+        cols = [[-x * ss for x in nrm], [x * sr for x in cv], [x * sc for x in rv]]
+        t, s = pos, [ss, sr, sc]
+    else:
+        cols, t, s = _comp_expected(dict(c, shape=n))
+    m = _oracle_geom(dict(c, shape=n), geo, cols, t, s)
+    if m:
+        return f'array shape {c["ashape"]}: {m}'
+    if c.get('center') is not None and not _allclose(geo[4], [F(x) for x in c['center']], 1e3):
+        return f'array shape {c["ashape"]}: center_position {geo[4]} is not the given centre {c["center"]}'
+    if sshape != n or cshape != list(c['ashape'][3:]):
+        return f'spatial_shape {sshape} / channel_shape {cshape} of an array of shape {c["ashape"]}'
+    if not _allclose(extent, [n[j] * s[j] for j in range(3)], 1e3):
+        return f'physical_extent {extent}, expected {[n[j] * s[j] for j in range(3)]}'
+    if not _allclose(cidx, [F(x - 1, 2) for x in n]):
+        return f'center_indices {cidx} of spatial shape {n}'
+    if not _allclose(gaff, geo[0], 1e3) or gshape != n:
+        return f'get_geometry(): affine {gaff} shape {gshape}'
+    for p, r in zip(c['probes'], probes):
+        q = [F(x) for x in p]
+        inside = all(F(-1, 2) <= q[j] <= n[j] - F(1, 2) for j in range(3))
+        if inside:
+            if _is_err(r) or not _allclose(r, [q], 1e3):
+                return f'index {p} inside the array of spatial shape {n} maps back (check_bounds=True) to {r}'
+        elif not _is_err(r, 'RuntimeError'):
+            return f'index {p} outside the array of spatial shape {n} passes the bounds check: {r}'
+    return None
 
 
 def _oracle_identities(c, o):
@@ -2180,13 +2686,26 @@ def shrink(c):
             g = c[gk]
             if g['pos'] != ['0', '0', '0'] and c['kind'] not in ('p2p', 'i2i', 'coplanar', 'identities', 'r2p', 'r2i',
                                                                   'map_coord', 'malformed', 'for_image', 'ds_info',
-                                                                  'ds_pair', 'ds_tile'):
+                                                                  'ds_pair', 'ds_tile', 'p2p_dtype', 'ds_pair_dtype',
+                                                                  'identities_dtype'):
                 yield dict(c, **{gk: dict(g, pos=['0', '0', '0'])})
             if g['sp'] != ['1', '1'] and c['kind'] not in ('r2p', 'r2i', 'map_coord', 'p2p', 'i2i', 'identities',
-                                                            'malformed', 'for_image', 'ds_info', 'ds_pair', 'ds_tile'):
+                                                            'malformed', 'for_image', 'ds_info', 'ds_pair', 'ds_tile',
+                                                            'p2p_dtype', 'ds_pair_dtype', 'identities_dtype'):
                 yield dict(c, **{gk: dict(g, sp=['1', '1'])})
-    if 'shape' in c and c['shape'] and any(n > 1 for n in c['shape']) and c['kind'] != 'malformed':
+    if 'shape' in c and c['shape'] and any(n > 1 for n in c['shape']) and c['kind'] != 'malformed' \
+            and not c['kind'].startswith('vol_'):
         yield dict(c, shape=[1 if n > 1 else n for n in c['shape']])
+    if c['kind'].startswith('vol_') and c.get('bad') is None:
+        if len(c.get('probes', [])) > 1:
+            for i in range(len(c['probes'])):
+                yield dict(c, probes=c['probes'][:i] + c['probes'][i + 1:])
+        if len(c['chan']) > 1:                      # drop the last channel dimension
+            yield dict(c, chan=c['chan'][:-1], ashape=c['ashape'][:-1])
+        if c['alayout'] != 'C' or c['adt'] != 'uint8':
+            yield dict(c, alayout='C', adt='uint8')
+    if c.get('layout', 'C') != 'C':
+        yield dict(c, layout='C')
 
 
 if __name__ == '__main__':
